@@ -179,6 +179,97 @@ fn main() {
         }
     }
 
+    // ---- C03: nested containers (depth 2..4) rewritten in place: the parent row keeps its id
+    //      and values, so only the container dirty-id closure re-stamps it for semi-naive
+    //      evaluation. Raw text programs, semi-naive and naive engines in lockstep.
+    let mut raw_cases = 0usize;
+    if prop == "C03" && o.replay.is_none() {
+        let kinds = [("Vec", "vec-of"), ("Set", "set-of")];
+        let mut progs: Vec<(String, Vec<String>, Vec<String>)> = Vec::new();
+        for depth in 2..=4usize {
+            for mask in 0..(1usize << depth.min(3)) {
+                let mut setup = String::from("(sort E)\n");
+                let mut sort_names = vec!["E".to_string()];
+                for lvl in 0..depth {
+                    let (k, _) = kinds[(mask >> (lvl.min(2))) & 1];
+                    let nm = format!("C{lvl}");
+                    setup.push_str(&format!("(sort {nm} ({k} {}))\n", sort_names[lvl]));
+                    sort_names.push(nm);
+                }
+                setup.push_str(&format!("(constructor b () E)\n(constructor c () E)\n(constructor w (E) E)\n(constructor p ({}) E)\n(relation Hit (E))\n", sort_names[depth]));
+                let nest = |leaf: &str| {
+                    let mut t = leaf.to_string();
+                    for lvl in 0..depth {
+                        let (_, of) = kinds[(mask >> (lvl.min(2))) & 1];
+                        t = format!("({of} {t})");
+                    }
+                    t
+                };
+                let steps = vec![
+                    format!("(rule ((= x (p {}))) ((Hit x) (union x (b))))", nest("(b)")),
+                    format!("(let $n (p {}))", nest("(w (b))")),
+                    "(run 2)".to_string(),
+                    "(union (w (b)) (b))".to_string(),
+                    "(run 2)".to_string(),
+                    format!("(let $m (p {}))", nest("(c)")),
+                    "(rewrite (w x) x)".to_string(),
+                    "(union (c) (w (w (b))))".to_string(),
+                    "(run-schedule (saturate (run)))".to_string(),
+                ];
+                let probes = vec!["(= $n (b))".to_string(), "(Hit $n)".to_string(), format!("(= (p {}) (b))", nest("(b)"))];
+                progs.push((setup, steps, probes));
+            }
+        }
+        for (setup, steps, probes) in &progs {
+            raw_cases += 1;
+            let mut a = egglog::EGraph::default();
+            let mut b = egglog::EGraph::default();
+            b.seminaive = false;
+            let (ra, _) = step(&mut a, setup);
+            let (rb, _) = step(&mut b, setup);
+            if ra.is_err() || rb.is_err() {
+                viols.push(Viol { what: format!("harness: nested-container setup rejected: {:?}", ra.err().or(rb.err())), key: "harness-header".into(), program: setup.clone(), at: 0 });
+                continue;
+            }
+            let mut done = String::new();
+            'steps: for (k, st) in steps.iter().enumerate() {
+                let (ra, pa) = step(&mut a, st);
+                let (rb, pb) = step(&mut b, st);
+                done.push_str(st);
+                done.push('\n');
+                let mut diff: Option<String> = None;
+                if ra.is_ok() != rb.is_ok() || pa || pb {
+                    diff = Some(format!("command outcome differs (semi-naive {:?}, naive {:?})", ra.as_ref().map(|_| ()), rb.as_ref().map(|_| ())));
+                }
+                if diff.is_none() && !st.starts_with("(let $m") && k >= 1 {
+                    for pr in probes {
+                        if pr.contains("$m") {
+                            continue;
+                        }
+                        let (ca, _) = step(&mut a, &format!("(check {pr})"));
+                        let (cb, _) = step(&mut b, &format!("(check {pr})"));
+                        if ca.is_ok() != cb.is_ok() {
+                            diff = Some(format!("(check {pr}) {} under semi-naive but {} under naive evaluation", if ca.is_ok() { "holds" } else { "fails" }, if cb.is_ok() { "holds" } else { "fails" }));
+                            break;
+                        }
+                    }
+                    if diff.is_none() {
+                        let (sa, _) = step(&mut a, "(print-size)");
+                        let (sb, _) = step(&mut b, "(print-size)");
+                        let fmt = |r: Result<Vec<egglog::CommandOutput>, String>| r.map(|o| o.iter().map(|x| x.to_string()).collect::<String>()).unwrap_or_else(|e| e);
+                        let (sa, sb) = (fmt(sa), fmt(sb));
+                        if sa != sb {
+                            diff = Some(format!("table sizes differ: semi-naive {sa:?} naive {sb:?}"));
+                        }
+                    }
+                }
+                if let Some(dm) = diff {
+                    viols.push(Viol { what: format!("nested containers, after `{st}`: {dm}"), key: "C03-semi-vs-naive".into(), program: format!("{setup}{done}"), at: k });
+                    break 'steps;
+                }
+            }
+        }
+    }
     for (ci, (p, tag)) in programs.iter().enumerate() {
         let text = p.text();
         let fresh = distinct.insert(text.clone());
@@ -773,7 +864,7 @@ fn main() {
         "err_hist": err_hist,
         "size_hist": size_hist,
         "err_samples": err_samples,
-        "extra_coverage": {"invariant_twin_evaluations": twin_evals, "model_cases": model_cases}
+        "extra_coverage": {"invariant_twin_evaluations": twin_evals, "model_cases": model_cases, "nested_container_lockstep_programs": raw_cases}
     });
     std::fs::write(o.out.join("impl_report.json"), serde_json::to_string(&rep).unwrap()).unwrap();
 }
